@@ -1,6 +1,7 @@
 SPECIFICATION Spec
 CONSTANTS
  Alphabet = {0, 97, 255}
+ MinLen = 0
  MaxLen = 3
  CFs = {0, 1}
  Vers = {1, 2, 1000000}
